@@ -78,6 +78,10 @@ struct ctl_server
     bool v6 = false;
     std::vector<std::string> events;       // server-side observations (under mu)
     bool down = false;
+    // E-app: `idle` = a connection is open, every complete command line received so far has been answered in full and the
+    // server is waiting for the next one; `kick` = close that connection now (the harness sets it when the client is blocked
+    // reading a reply the script will never send: the model's control stream ends there, the real server hangs up there)
+    std::atomic<bool> idle{false}, kick{false};
     ~ctl_server() { shutdown(); }
 
     void start(bool ipv6, int ver, bool reqreuse)
@@ -170,10 +174,14 @@ struct ctl_server
             return true;
         };
         bool alive = play("<connect>");
+        kick = false;
         while (alive && !stop)
         {
+            if (kick.exchange(false)) break;
             pollfd p{fd, POLLIN, 0};
-            if (!(ssl && SSL_pending(ssl) > 0) && ::poll(&p, 1, 100) <= 0) continue;
+            idle = buf.empty();
+            if (!(ssl && SSL_pending(ssl) > 0) && ::poll(&p, 1, 50) <= 0) continue;
+            idle = false;
             char tmp[4096];
             ssize_t r = ssl ? SSL_read(ssl, tmp, sizeof tmp) : ::recv(fd, tmp, sizeof tmp, 0);
             if (r <= 0)
@@ -198,6 +206,7 @@ struct ctl_server
                 alive = play(line);
             }
         }
+        idle = false;
         if (ssl) SSL_free(ssl);
         ::close(fd);
     }
